@@ -162,6 +162,15 @@ def judge(res, what, sig, damaged, intact, one, rewritten=()):
     same_ev = ev == intact[3]
     same_an = analysis == intact[2]
     if same_text and same_ev and same_an:
+        # a damaged event count, parameter count or bit width leaves a file whose keywords are NOT those of the intact file: loading it is
+        # only in order when the damaged file is itself a consistent file (the reference reader accepts it) -- an inconsistent one is refused
+        if rewritten and (rewritten[0] in ('$TOT', '$PAR') or re.match(r'^\$P\d+B$', rewritten[0])):
+            try:
+                fcsgen.refread(damaged)
+            except fcsgen.RefError as e:
+                res.violation(sig + ':inconsistent-loaded', '%s: the file no longer describes its own DATA segment (reference reader: %s) but was loaded without an error, '
+                              'with the damaged keyword %s = %r' % (what, e, rewritten[0], text.get(rewritten[0])), one)
+                return
         res.ok('intact-content', True)
         return
     # is the damaged file itself a well-formed file?
